@@ -908,6 +908,31 @@ Proof.
   eexists. split; [reflexivity|]. split; [reflexivity|]. intros. reflexivity.
 Qed.
 
+(* the compressed objectives overwrite the three figures with the compressed statistics of the
+   tree the dict holds.  `cstats` is ONE function of the tree (a Section variable): scoring is
+   assumed to depend on the tree and the objective's parameters only, not on what was scored
+   before -- the harness checks exactly this on every run. *)
+Definition describes_compressed (tr : trial T) : Prop :=
+  exists t, t_tree tr = Some t /\
+    t_flops tr = Some (Some (fst (fst (cstats t)))) /\
+    t_write tr = Some (Some (snd (fst (cstats t)))) /\
+    t_size tr = Some (Some (snd (cstats t))) /\
+    t_score tr = Some (finish (score_comp (fst (fst (cstats t))) (snd (fst (cstats t))) (snd (cstats t)))).
+
+Lemma compressed_records_tree_costs em o b tr :
+  trial_fn em ObjCompressed o b = Ok tr -> tr = failed_trial \/ describes_compressed tr.
+Proof.
+  intros H. unfold trial_fn, compute_score in H.
+  destruct (rbind (run_stages (stages_of o) (base_trial T b)) _) as [[tr0 x]| |] eqn:E.
+  - right. injection H as <-.
+    destruct (run_stages (stages_of o) (base_trial T b)) as [tr1| |] eqn:E1; cbn in E; try discriminate.
+    destruct (t_tree tr1) as [t|] eqn:Et; [|discriminate].
+    destruct (cstats t) as [[f w] z] eqn:Ec. injection E as <- <-.
+    exists t. unfold set_score. cbn. rewrite Ec. cbn. repeat split; reflexivity.
+  - left. injection H as <-. reflexivity.
+  - left. destruct em; try discriminate; injection H as <-; reflexivity.
+Qed.
+
 (* original_* are the figures of the path finder's tree, whatever ran afterwards *)
 Lemma originals_are_base ss : forall tr tr',
   run_stages ss (Ok tr) = Ok tr' ->
